@@ -163,7 +163,7 @@ theorem eval_eqAsNotNe (cfg : Cfg) (fuel : Nat) (sp : Span) (ty : Ty) (op : Infi
     evalExpr cfg (fuel + 3) (eqAsNotNe l r (.infix sp ty op l r)) st
       = evalExpr cfg (fuel + 1) (.infix sp ty op l r) st := by
   rcases hop with rfl | rfl <;>
-  · simp only [eqAsNotNe, negOp, evalExpr, binOp, eqM]
+  · simp only [eqAsNotNe, negOp, evalExpr, binOp]
     unfold_m
     cases evalExpr cfg fuel l st with
     | mk ra s1 =>
@@ -177,9 +177,11 @@ theorem eval_eqAsNotNe (cfg : Cfg) (fuel : Nat) (sp : Span) (ty : Ty) (op : Infi
           | error c => rfl
           | ok b =>
             unfold_m
-            cases valEq s2.heap 64 a b with
-            | none => rfl
-            | some x => cases x <;> rfl
+            cases eqM a b s2 with
+            | mk rr s3 =>
+              cases rr with
+              | error c => rfl
+              | ok x => cases x <;> rfl
 
 end HmsProofs.Lemmas.Fuzz
 
